@@ -107,6 +107,8 @@ let () =
       print_newline ()) code;
     print_endline "end";
     Printf.printf "CERT %b\n" (certify code)) fns;
+  (* 1b. is the program inside the fragment on which C01 is a theorem (Compile/StmtFragB.v fragment_correct)? *)
+  Printf.printf "FRAG %b\n" (in_fragment path prog);
   (* 2. reference semantics *)
   print_endline "EVAL";
   let (out, oc) = run fuel prog in
